@@ -48,13 +48,35 @@ def mb_cases(ctx):
                 r = rng.random()
                 ops.append({"op": "enq", "id": fresh()} if r < 0.5 else ({"op": "deq"} if r < 0.85 else {"op": "empty"}))
             cases.append({"kind": kind, "cap": cap, "ops": ops})
+    # boundaries of every real mailbox: exactly B messages consumed (segment size 256 and its multiples, ring
+    # capacities), then one more enqueue: IsEmpty must be false, Len 1, and the message must come out
+    probe = [{"op": "empty"}, {"op": "deq"}, {"op": "enq", "id": 0}, {"op": "empty"}, {"op": "deq"}, {"op": "empty"}, {"op": "deq"}]
+    def with_ids(ops):
+        return [dict(o, id=fresh()) if o["op"] == "enq" else o for o in ops]
+    for kind, cap, bounds in [("unbounded", 0, [256, 512]), ("segmented", 0, [255, 256, 257, 512, 768]), ("nonblocking-bounded", 8, [8, 16, 24]),
+                              ("nonblocking-bounded", 2, [2, 4]), ("nonblocking-bounded", 256, [256, 512]), ("bounded", 8, [8, 16]),
+                              ("priority", 0, [256]), ("bstable", 0, [256]), ("upriority", 0, [256]), ("bpriority", 0, [256])]:
+        for b in bounds:
+            inter = []
+            for _ in range(b):
+                inter += [{"op": "enq", "id": 0}, {"op": "deq"}]
+            cases.append({"kind": kind, "cap": cap, "ops": with_ids(inter + probe)})
+            if cap == 0 or b < cap:
+                cases.append({"kind": kind, "cap": cap, "ops": with_ids([{"op": "enq", "id": 0}] * b + [{"op": "deq"}] * b + probe)})
+            if kind == "segmented":  # a successor segment already linked when the head segment is drained
+                cases.append({"kind": kind, "cap": cap, "ops": with_ids([{"op": "enq", "id": 0}] * (b + 1) + [{"op": "deq"}] * b + [{"op": "empty"}, {"op": "deq"}, {"op": "empty"}])})
     return cases
+
+
+FIFO_KINDS = {"unbounded", "segmented", "nonblocking-bounded", "bounded", "priority", "bstable"}
 
 
 def mb_conformance(ctx, cases, outs):
     """the contract instance fifo2 (reserve+publish fused = a complete Enqueue) vs the real mailboxes"""
     items = []
     for c, o in zip(cases, outs):
+        if c["kind"] not in FIFO_KINDS:
+            continue
         ops = "; ".join({"enq": "(0, %d)" % op.get("id", 0), "deq": "(1, 0)", "empty": "(2, 0)"}[op["op"]] for op in c["ops"])
         exp = "; ".join("(%s)" % ("None" if x < 0 else "Some %d" % x) for x in o["outs"])
         items.append("(%d, [%s], [%s])" % (c["cap"], ops, exp))
@@ -99,7 +121,11 @@ def mb_oracle(ctx, cases, outs):
                 if want:
                     q.append(op["id"])
             elif op["op"] == "deq":
-                want = q.pop(0) if q else -1
+                if c["kind"] not in FIFO_KINDS and q and r in q:
+                    q.remove(r)
+                    want = r
+                else:
+                    want = q.pop(0) if q else -1
             else:
                 want = 1 if not q else 0
             if r != want or ln != len(q):
